@@ -1,4 +1,5 @@
 """C11 - scripts can reach only the globals the host configuration allows."""
+import glob
 import json
 import os
 import re
@@ -35,7 +36,16 @@ def make_overlay():
 
 
 def load_known():
-    return C.load_known(PROP)
+    """open known findings of this property: the shared file plus the per-agent files known_findings.<agent>.jsonl"""
+    out = list(C.load_known(PROP))
+    for fn in sorted(glob.glob(os.path.join(C.VERIF, "known_findings.*.jsonl"))):
+        for line in open(fn):
+            line = line.strip()
+            if line and not line.startswith("#"):
+                j = json.loads(line)
+                if j.get("property") == PROP and not j.get("fixed"):
+                    out.append(j)
+    return out
 
 
 def hx(s):
@@ -580,6 +590,302 @@ def gen_cases(rng, base, tier):
     return cases
 
 
+# ------------------------------------------------------------------ histories of configurations (sessions)
+# One host process: ONE globals map the host hands to every configuration, optionally ONE VM and code compiled once,
+# evaluated under a SEQUENCE of configurations that differ in WithoutDefaultGlobals / deny / override options.  The
+# property quantifies over configurations, so evaluation k of a history must behave as its configuration does alone.
+
+HOST_NODE = NEW_BASE + 2000
+
+
+def split_probe(src):
+    """risor source of an access attempt -> (statements before, expression)"""
+    lines = src.split("\n")
+    return "\n".join(lines[:-1]), lines[-1]
+
+
+class Session:
+    def __init__(self, sid, group, vm, host, override, extra, steps, probes):
+        self.id, self.group, self.vm = sid, group, vm
+        self.host, self.override, self.extra = host, override, extra      # lists of (name, kind)
+        self.steps = steps          # [{"route":..., "opts":[{op,names,idx}]}]
+        self.probes = probes        # [{"pre","expr","src","path","syn","uses":[top-level names the script mentions]}]
+
+    def go_json(self):
+        return json.dumps({"id": self.id, "vm": self.vm,
+                           "host": [{"name": n, "kind": k} for n, k in self.host],
+                           "override": [{"name": n, "kind": k} for n, k in self.override],
+                           "extra": [{"name": n, "kind": k} for n, k in self.extra],
+                           "probes": [{"pre": p["pre"], "expr": p["expr"]} for p in self.probes],
+                           "steps": self.steps})
+
+    def option_text(self, k):
+        out = []
+        for o in self.steps[k]["opts"]:
+            op = o["op"]
+            if op == "hostmap":
+                out.append("WithGlobals(HOSTMAP)")
+            elif op == "nodefaults":
+                out.append("WithoutDefaultGlobals()")
+            elif op == "without":
+                out.append("WithoutGlobal(%r)" % o["names"][0])
+            elif op == "without_many":
+                out.append("WithoutGlobals(%s)" % ", ".join(repr(n) for n in o["names"]))
+            elif op == "override":
+                out.append("WithGlobalOverride(%r, <%s>)" % tuple(self.override[o["idx"][0]]))
+            elif op == "global":
+                out.append("WithGlobal(%r, <%s>)" % tuple(self.extra[o["idx"][0]]))
+            elif op == "globals":
+                out.append("WithGlobals({%s})" % ", ".join("%r: <%s>" % tuple(self.extra[j]) for j in o["idx"]))
+        return out
+
+    def step_text(self, k):
+        r = self.steps[k]["route"]
+        api = {"newconfig": "cfg := risor.NewConfig(%s) (kept; scripts run with cfg.CompilerOpts / cfg.VMOpts)",
+               "eval": "risor.Eval(ctx, SCRIPT, %s)", "evalcode": "risor.EvalCode(ctx, CODE compiled once, %s)",
+               "call": "risor.Call(ctx, CODE compiled once, \"c11probe\", nil, %s)"}[r]
+        opts = self.option_text(k) + (["WithVM(THE_VM)"] if self.vm and r != "newconfig" else [])
+        return api % ", ".join(opts)
+
+    def describe(self):
+        return {"id": self.id, "group": self.group, "one_vm_for_all_steps": self.vm,
+                "HOSTMAP (one map object handed to every step)": {n: "<%s>" % k for n, k in self.host},
+                "history": ["%d. %s" % (k + 1, self.step_text(k)) for k in range(len(self.steps))]}
+
+    def model_line(self, k):
+        toks = ["%s~%d" % (self.id, k), "0", "0"]
+        for o in self.steps[k]["opts"]:
+            op = o["op"]
+            if op == "hostmap":
+                toks.append("GM:" + ",".join("%s=%d" % (hx(n), HOST_NODE + i) for i, (n, _) in enumerate(self.host)))
+            elif op == "nodefaults":
+                toks.append("ND")
+            elif op == "without":
+                toks.append("D:" + hx(o["names"][0]))
+            elif op == "without_many":
+                toks.append("DM:" + ",".join(hx(n) for n in o["names"]))
+            elif op == "override":
+                toks.append("O:%s:%d" % (hx(self.override[o["idx"][0]][0]), NEW_BASE + o["idx"][0]))
+            elif op == "global":
+                toks.append("G:%s:%d" % (hx(self.extra[o["idx"][0]][0]), NEW_BASE + 1000 + o["idx"][0]))
+            elif op == "globals":
+                toks.append("GM:" + ",".join("%s=%d" % (hx(self.extra[j][0]), NEW_BASE + 1000 + j) for j in o["idx"]))
+        return " ".join(toks)
+
+    def step_config(self, k):
+        """-> (nodefaults, denied names, overridden names) of step k, from its own options"""
+        nd, dn, ov = False, [], []
+        for o in self.steps[k]["opts"]:
+            if o["op"] == "nodefaults":
+                nd = True
+            elif o["op"] in ("without", "without_many"):
+                dn += o["names"]
+            elif o["op"] == "override":
+                ov.append(self.override[o["idx"][0]][0])
+        return nd, dn, ov
+
+
+def gen_sessions(rng, base, tier):
+    names1 = base.names(1)
+    tops = [n for n in names1 if "." not in n and IDENT.match(n) and n not in KEYWORDS and n != "getattr"]
+    out = []
+
+    def shuffle(xs):
+        xs = list(xs)
+        for i in range(len(xs) - 1, 0, -1):
+            j = rng.below(i + 1)
+            xs[i], xs[j] = xs[j], xs[i]
+        return xs
+
+    def uses(path, syn):
+        u = [path[0]]
+        if syn in ("getattr", "indirect") and len(path) > 1 or syn == "from" and len(path) > 2:
+            u.append("getattr")
+        return u
+
+    nsess = 160 if tier == "quick" else 2400
+    for si in range(nsess):
+        vm = si % 2 == 1
+        pool = []
+        while len(pool) < 2 + rng.below(3):
+            nm = rng.choice(names1)
+            if rng.chance(1, 4) and "." in nm:
+                nm = nm.split(".")[0]
+            if nm == "getattr" or nm in pool or not all(IDENT.match(x) and x not in KEYWORDS for x in nm.split(".")):
+                continue
+            pool.append(nm)
+        host = [("answer", "int")]
+        if rng.chance(2, 3):
+            host.append(("hostfn", "new"))
+        if rng.chance(2, 3):
+            host.append(("hostmod", "hmod"))
+        if rng.chance(1, 5):
+            host.append((rng.choice(tops), "new"))          # the host's own value under the name of a default
+        override = [(nm, rng.choice(["new", "int"])) for nm in pool if rng.chance(2, 3)]
+        if rng.chance(1, 5):
+            override.append(("fresh_global_0", "new"))
+        extra = [("fresh_extra_0", "new")] if rng.chance(1, 3) else []
+        nsteps = 2 + rng.below(4)
+        steps = []
+        for k in range(nsteps):
+            if vm:
+                route = rng.choice(["eval", "evalcode", "call", "evalcode"])
+            else:
+                route = rng.choice(["eval", "newconfig", "eval", "evalcode", "call", "newconfig"])
+            opts = []
+            if not (k == 0 and rng.chance(1, 2)):       # (half of the histories start with the plain configuration)
+                dn = [nm for nm in pool if rng.chance(1, 3)]
+                if rng.chance(1, 8):
+                    dn.append(rng.choice(host)[0])
+                if dn:
+                    if len(dn) == 1 or rng.chance(1, 2):
+                        opts += [{"op": "without", "names": [n], "idx": []} for n in dn]
+                    else:
+                        opts.append({"op": "without_many", "names": dn, "idx": []})
+                for i in range(len(override)):
+                    if rng.chance(1, 3):
+                        opts.append({"op": "override", "names": [], "idx": [i]})
+                if rng.chance(1, 4):
+                    opts.append({"op": "nodefaults", "names": [], "idx": []})
+                if extra and rng.chance(1, 2):
+                    opts.append({"op": rng.choice(["global", "globals"]), "names": [], "idx": [0]})
+                opts = shuffle(opts)
+            if rng.chance(7, 8):
+                hm = {"op": "hostmap", "names": [], "idx": []}
+                if rng.chance(2, 3):
+                    opts.insert(0, hm)          # what hosts write: their globals first, then the restrictions
+                else:
+                    opts.insert(rng.below(len(opts) + 1), hm)
+            steps.append({"route": route, "opts": opts})
+        probes, seen = [], set()
+
+        def add(path, syn):
+            src = render(path, syn)
+            if src and src not in seen and len(probes) < 26:
+                seen.add(src)
+                pre, expr = split_probe(src)
+                probes.append({"pre": pre, "expr": expr, "src": src, "path": ".".join(path), "syn": syn, "uses": uses(path, syn)})
+        for nm in pool:
+            direct = nm.split(".")
+            for syn in SYNTAXES:
+                add(direct, syn)
+            tgt = base.lookup(nm)
+            alts = [p for p in base.paths_to(tgt, 1, 3) if p != direct] if tgt else []
+            for _ in range(2):
+                if alts:
+                    add(alts.pop(rng.below(len(alts))), rng.choice(["dot", "getattr"]))
+        for n, kind in host:
+            add([n], "dot")
+            if kind == "hmod":
+                add([n, "hm_a"], rng.choice(["dot", "getattr", "from"]))
+                add([n, "hm_a", "__module__", "hm_b"], "dot")
+        for n, _ in extra + [o for o in override if "." not in o[0]]:
+            add([n], "dot")
+        for _ in range(2):
+            nm = rng.choice(names1)
+            add(nm.split("."), rng.choice(["dot", "import"] if "." in nm else ["dot"]))
+        out.append(Session("S%d" % si, "session-vm" if vm else "session-map", vm, host, override, extra, steps, probes))
+    return out
+
+
+def unresolved(r):
+    """the script failed because a top-level name (identifier or imported module) does not resolve"""
+    return r in ("err:undefined", "err:import", "none") or ("variable" in r and "has no value" in r)
+
+
+def judge_session(s, g, base, regnames):
+    """-> (why: strict findings, known: findings of the recorded reused-VM class, nontrivial marks)"""
+    why, known, marks = [], [], set()
+    if g.get("problem"):
+        return ["harness could not observe: " + g["problem"]], [], marks
+    steps = g.get("steps") or []
+    envs = []
+    for k, so in enumerate(steps):
+        nd, dn, ov = s.step_config(k)
+        route = s.steps[k]["route"]
+        tag = "evaluation %d of the history [%s]" % (k + 1, s.step_text(k))
+        env, ienv = so.get("env") or [], so.get("iso_env") or []
+        if so.get("hostmap"):
+            why.append("%s changed the HOST's own globals map: %s" % (tag, so["hostmap"]))
+        if env != ienv:
+            why.append("%s: the configured globals differ from those of the same option list with a copy of the host's map: "
+                       "only in the history %s, only alone %s" % (tag, sorted(set(env) - set(ienv))[:6], sorted(set(ienv) - set(env))[:6]))
+        forbidden = {}
+        for nm in dn + ov:
+            t = base.lookup(nm) if nm in regnames else None
+            if t is not None:
+                forbidden[t] = "the object registered under the %s name %r" % ("denied" if nm in dn else "overridden", nm)
+                marks.add(("session-" + ("deny" if nm in dn else "override"), s.id, k))
+        earlier_vm_names = set()
+        if s.vm and route != "newconfig":
+            for j in range(k):
+                if s.steps[j]["route"] != "newconfig":
+                    earlier_vm_names |= set(envs[j])
+        for p, po in zip(s.probes, so.get("probes") or []):
+            r, iso, stale = po["res"], po["iso"], po.get("stale", 0)
+            msgs = []
+            if r.startswith("sig:") and int(r[4:]) in forbidden:
+                msgs.append("%s: script %r obtains %s (object %s)" % (tag, p["src"], forbidden[int(r[4:])], r))
+            if nd and r.startswith("sig:"):
+                msgs.append("%s: script %r obtains the default object %s although default globals are disabled" % (tag, p["src"], r))
+            if r != iso:
+                msgs.append("%s: script %r gives %s, but %s when the same option list is evaluated alone (copy of the host's map, "
+                            "new VM, newly compiled code)%s" % (tag, p["src"], r, iso,
+                                                                "; the object was first obtained by evaluation %d" % stale if stale else ""))
+            elif stale:
+                msgs.append("%s: script %r obtains the very %s that evaluation %d of the history obtained first: two "
+                            "configurations share a mutable object" % (tag, p["src"], r, stale))
+            if not msgs:
+                continue
+            # the recorded finding: a reused VM keeps the top-level globals of earlier configurations
+            # (decided on the observation: alone the script stops at a name that does not resolve, in the history it gets past
+            # it - it obtains an object, or fails LATER: at a member the earlier configuration had removed, at the next name)
+            absent = [u for u in p["uses"] if u not in ienv and u in earlier_vm_names]
+            if absent and unresolved(iso) and r != iso:
+                known.append({"step": k + 1, "script": p["src"], "absent_top_level_names": absent, "got": r, "alone": iso})
+            else:
+                why += msgs
+        envs.append(ienv)
+        if len(set(json.dumps(x["opts"], sort_keys=True) for x in s.steps[:k + 1])) > 1:
+            marks.add(("session-step", s.id, k))
+    for lo in g.get("late") or []:
+        k = lo["step"] - 1
+        if k >= len(steps):
+            continue
+        first = steps[k]
+        if lo.get("env") != first.get("env"):
+            a, b2 = set(first.get("env") or []), set(lo.get("env") or [])
+            why.append("the Config made by step %d [%s] changed after the later steps of the history: lost %s, gained %s"
+                       % (k + 1, s.step_text(k), sorted(a - b2)[:6], sorted(b2 - a)[:6]))
+        for p, r0, r1 in zip(s.probes, [x["res"] for x in first.get("probes") or []], lo.get("probes") or []):
+            if r0 != r1:
+                why.append("the Config made by step %d [%s]: script %r gave %s when the Config was made and %s after the later "
+                           "steps of the history" % (k + 1, s.step_text(k), p["src"], r0, r1))
+        marks.add(("session-kept", s.id, k))
+    return why, known, marks
+
+
+def run_sessions(obs, repo, sessions, nshard):
+    lines = [s.go_json() for s in sessions]
+    shards = [lines[i::nshard] for i in range(nshard)]
+
+    def one(i):
+        if not shards[i]:
+            return 0, "", ""
+        return C.run([obs, "sessions", repo], input=("\n".join(shards[i]) + "\n").encode(), timeout=3000)
+    with ThreadPoolExecutor(max_workers=nshard) as ex:
+        outs = list(ex.map(one, range(nshard)))
+    res = {}
+    for rc, o, e in outs:
+        if rc != 0:
+            return None, "c11obs sessions failed: rc=%s %s" % (rc, e[-1500:])
+        for line in o.split("\n"):
+            if line.strip():
+                j = json.loads(line)
+                res[j["id"]] = j
+    return res, ""
+
+
 # ------------------------------------------------------------------ running both sides
 
 def run_go(obs, repo, lines, work, nshard):
@@ -741,6 +1047,16 @@ def _body(res, tier, repo, obs, model, base, base_text, hash_equal, aliases, pro
     mo, err = run_model(model, basefile, mlines, nshard)
     if mo is None:
         res.violation({"property": PROP, "kind": "harness-run-failed", "stage": "model_globals", "log": err}, nofail=True, tag="run")
+        return
+
+    sessions = gen_sessions(rng, base, tier)
+    sgo, err = run_sessions(obs, repo, sessions, nshard)
+    if sgo is None:
+        res.violation({"property": PROP, "kind": "harness-run-failed", "stage": "c11obs sessions", "log": err}, nofail=True, tag="run")
+        return
+    smo, err = run_model(model, basefile, [s.model_line(k) for s in sessions for k in range(len(s.steps))], nshard)
+    if smo is None:
+        res.violation({"property": PROP, "kind": "harness-run-failed", "stage": "model_globals (sessions)", "log": err}, nofail=True, tag="run")
         return
 
     stable = {n for n, info in base.nodes.items() if info[0]}
@@ -972,6 +1288,52 @@ def _body(res, tier, repo, obs, model, base, base_text, hash_equal, aliases, pro
             samples.append({"case": c.describe(), "impl_reach_size": len(g["reach"] or []), "impl_denied": g.get("denied"),
                             "impl_over": g.get("over"), "eval": (g.get("eval") or [])[:3],
                             "model_reach_size": len([n for n in (m["reach"] or []) if n in stable])})
+    # ---------------- histories of configurations
+    vm_known = []
+    session_samples = []
+    for sn in sorted(sessions, key=lambda x: len(x.steps)):      # (the shortest failing history is reported first)
+        g = sgo.get(sn.id)
+        groups[sn.group] = groups.get(sn.group, 0) + 1
+        if g is None:
+            corr.append({"stage": "run", "case": sn.describe(), "why": "missing output of c11obs sessions"})
+            continue
+        why, kn, marks = judge_session(sn, g, base, regnames)
+        nontrivial |= marks
+        evals += sum(2 * len(so.get("probes") or []) + 2 for so in g.get("steps") or [])
+        if why:
+            oracle_viol.append({"case": sn.describe(), "why": why[:12], "session": json.loads(sn.go_json()),
+                                "scripts": [p["src"] for p in sn.probes],
+                                "impl": {"steps": [{"env_size": len(so.get("env") or []), "hostmap": so.get("hostmap"),
+                                                    "differing": [dict(po, script=p["src"]) for p, po in zip(sn.probes, so.get("probes") or [])
+                                                                  if po["res"] != po["iso"] or po.get("stale")][:8]}
+                                                   for so in g.get("steps") or []], "late": g.get("late")}})
+        if kn:
+            vm_known.append({"case": sn.describe(), "hits": kn[:6]})
+        # the model's config_of on the step's own option list: the same names of globals
+        for k, so in enumerate(g.get("steps") or []):
+            mr = smo.get("%s~%d" % (sn.id, k))
+            if mr is None:
+                corr.append({"stage": "session-model", "case": sn.describe(), "why": "no model output for step %d" % (k + 1)})
+            elif sorted(so.get("iso_env") or []) != mr["env"]:
+                corr.append({"stage": "session-env", "case": sn.describe(), "step": k + 1, "options": sn.option_text(k),
+                             "differences": sorted(set(so.get("iso_env") or []) ^ set(mr["env"]))[:6]})
+        if groups[sn.group] <= 2:
+            session_samples.append({"case": sn.describe(), "scripts": [p["src"] for p in sn.probes][:8],
+                                    "step_results": [[po["res"] for po in (so.get("probes") or [])][:8] for so in g.get("steps") or []]})
+    samples += session_samples
+    cov["session_known_class_hits"] = len(vm_known)
+    if vm_known:
+        if any(k.get("id") == "reused-vm-keeps-top-level-globals" for k in known):
+            res.known_finding("a VM reused through WithVM keeps the top-level globals of EARLIER configurations: a later configuration "
+                              "that lacks a top-level name (WithoutGlobal(s) of it, WithoutDefaultGlobals, an extra global not given "
+                              "again) still resolves it - by identifier, import, getattr - to the earlier configuration's object "
+                              "(vm.WithGlobals merges into vm.inputGlobals; %d histories, e.g. %s)"
+                              % (len(vm_known), json.dumps(vm_known[0]["hits"][0])))
+        else:
+            for v in vm_known:
+                oracle_viol.append({"case": v["case"], "why": ["reused VM resolves a top-level name the configuration lacks: %s" % json.dumps(h)
+                                                               for h in v["hits"]]})
+
     # the denylist and overrides are Go maps: a rerun must observe the same thing
     for c in cases:
         t = getattr(c, "twin", None)
@@ -996,10 +1358,20 @@ def _body(res, tier, repo, obs, model, base, base_text, hash_equal, aliases, pro
                    "with a module the HOST assembles (object.NewBuiltinsModule) from members of a default module - of this "
                    "configuration's own instance or of a separate one - installed as override of that module or beside a deny of "
                    "it: no script result and no node of the GetAttr closure may be the denied / replaced module (or a copy of it). "
+                   "%d HISTORIES of 2-5 configurations in one host process: one globals map object (host values, a host module, "
+                   "sometimes under a default's name) handed to every step by WithGlobals, half of them with ONE VM (WithVM) and "
+                   "code compiled once; routes NewConfig (kept and observed again at the end) / Eval / EvalCode / Call; the steps "
+                   "differ in WithoutDefaultGlobals, deny and override options over a shared pool of names; up to 26 access scripts "
+                   "per step (identifier, getattr, import forms, __module__ back-references, host values). Every step is also "
+                   "run ALONE (copy of the map, new VM, newly compiled code): names of globals and every script result must be "
+                   "equal, no result may be the object registered under a name the step denies / overrides, no module or builtin "
+                   "may be the very object an earlier step obtained, the host's map (names, values, members of its modules) must "
+                   "be as the host made it, a kept Config must not change. "
                    "Non-trivial = distinct (deny|override, name) pairs whose name was registered before configuration, reused "
-                   "sub-lists, assembled modules." % (
+                   "sub-lists, assembled modules, steps of histories whose option lists differ." % (
                        len(names1), groups.get("subset", 0), groups.get("composed", 0),
-                       groups.get("assembled", 0) + groups.get("assembled-foreign", 0)))
+                       groups.get("assembled", 0) + groups.get("assembled-foreign", 0),
+                       groups.get("session-map", 0) + groups.get("session-vm", 0)))
     cov["samples"] = samples
     cov["input_distribution"] = groups
     cov["correspondence"] = {"cases": len(cases), "differences": len(corr), "graph_nodes": len(base.nodes),
@@ -1017,6 +1389,10 @@ def _body(res, tier, repo, obs, model, base, base_text, hash_equal, aliases, pro
         "the base graph has no nodes for them",
         "objects returned by CALLING builtins are outside the property's observable (GetAttr closure)",
         "capability aliases (distinct builtins wrapping one Go function, e.g. os.getenv / getenv) are reported, not judged",
+        "histories never deny / override a member of a module the HOST supplies (Config edits such a module object in place; "
+        "the property's independence clause speaks of default globals)",
+        "histories: objects are named by signature (kind, description, Go function, module name) - exact because no two objects "
+        "of the default configuration share a signature (checked: DUPSIG lines of c11obs base)",
     ]
 
     # 6. decide
@@ -1066,6 +1442,10 @@ def replay(data):
     if not obs:
         print(err)
         return 2
+    if data.get("session"):
+        rc, o, e = C.run([obs, "sessions", repo_dir()], input=(json.dumps(data["session"]) + "\n").encode())
+        print(o, e)
+        return 0
     spec = {"id": "replay", "mode": c.get("mode", "A"), "nodefaults": c.get("nodefaults", False), "custom": c.get("custom", False),
             "deny": c.get("deny", []), "override": [{"name": n, "kind": k} for n, k in c.get("override", [])],
             "lookups": c.get("deny", []) + [n for n, _ in c.get("override", [])],
